@@ -21,7 +21,7 @@ HDR = ("From Coq Require Import ZArith List.\nFrom PR Require Import Base.ListX 
        "Import ListNotations.\nOpen Scope Z_scope.\n")
 DRIVER_PROCS = 6
 # which executions of each generator class are shown as evidence samples (1-based position inside the class)
-SAMPLE_AT = {"prng": (2, 9), "prng_macro": (3,), "boundary": (14,), "malformed": (1,), "exhaustive_step": (15, 230),
+SAMPLE_AT = {"prng": (2, 9), "prng_macro": (3,), "boundary": (9,), "exhaustive_step": (15, 230),
              "exhaustive_macro": (70,), "depth_first_sample_macro": (500,)}
 
 
@@ -336,9 +336,10 @@ def run(ctx):
             continue
         receivers = len(set(w for w, _, _ in res["yields"]))
         nontriv = len(res["yields"]) >= 2 and (receivers >= 2 or nw == 1)
-        seen_cls[cls] = seen_cls.get(cls, 0) + 1
+        if nontriv:
+            seen_cls[cls] = seen_cls.get(cls, 0) + 1
         sample = None
-        if seen_cls[cls] in SAMPLE_AT.get(cls, ()):     # a few varied executions per generator class go into the evidence
+        if nontriv and seen_cls[cls] in SAMPLE_AT.get(cls, ()):     # a few varied executions per generator class go into the evidence
             sample = {cls: conf, "workers": nw, "turns": len(res["turns"]), "schedule_head": res["turns"][:16],
                       "yields": res["yields"][:6], "final_counters": res["final"], "self._chunk": res["chunk0"]}
         ctx.case((repr(conf), nw, tuple(res["turns"])), nontrivial=nontriv, sample=sample)
